@@ -90,6 +90,7 @@ static void fidelity_case(int pi, int ce, int framing, int side, int invalid, in
     static hx_buf z, q, r; hb_reset(&z); hb_reset(&q); hb_reset(&r);
     static const char junk[] = "this is plain text, not a compressed stream at all, and it is long enough to matter: 0123456789 0123456789";
     if (invalid) hb_put(&z, junk, sizeof junk - 1); else encode(ce, PAY[pi].p, PAY[pi].n, &z);
+    if (bomb_limit && PAY[pi].n > 1500 * z.n) return;            /* two layers over zeros: the ratio passes 2048, this IS a bomb by the rule; not a fidelity case */
     hx_buf *w = side ? &r : &q;
     if (side) { hb_puts(&q, "GET /z HTTP/1.1\r\nHost: h\r\n\r\n"); hb_printf(&r, "HTTP/1.1 200 OK\r\nContent-Encoding: %s\r\n", CENAME[ce]); }
     else { hb_printf(&q, "POST /z HTTP/1.1\r\nHost: h\r\nContent-Encoding: %s\r\n", CENAME[ce]); hb_puts(&r, "HTTP/1.1 200 OK\r\nContent-Length: 0\r\n\r\n"); }
